@@ -1,4 +1,6 @@
-import CelmaVerif.Lemmas.InterleaveInventory
+import CelmaVerif.Lemmas.InterleaveApi
+import CelmaVerif.Lemmas.ConcurrencyRace
+import CelmaVerif.Lemmas.ConcurrencyHB
 /-
   Property C09 — independent argument handlers can be used concurrently.
 
@@ -11,10 +13,21 @@ import CelmaVerif.Lemmas.InterleaveInventory
       threads, all programs, all schedules (`C09_noninterference*`, `C09_race_free`);
    2. `C09_inventory_clean`: the inventory of process-wide mutable objects reachable from the
       handler, regenerated from the source on every run, has no entry without a justification;
-   3. `C09_handler_threads_isolated`: closed world + clean inventory + the justifications'
-      assumptions (explicit hypotheses) give the footprint condition of layer 1.
-  The claim about the C++ code is partial: layer 3's closed-world hypothesis is an assumption
-  about C++, supported (never replaced) by the ThreadSanitizer runs of the check.
+   3. the link to the handler.  `C09_plain_handler_threads_isolated`: the thread program is
+      *derived* from what the thread calls on its handler (`Api`, `threadProg`); its process-wide
+      cells are the regenerated inventory, which call reaches them is read from the regenerated
+      call-site table (`C09_singleton_callers_modelled`); the footprint condition is PROVED for
+      plain handler threads (decidable condition `Plain` on the call list) and proved to FAIL for
+      a thread that asks for the usage / the group list / standard arguments
+      (`C09_plain_is_the_boundary`, `C09_usage_threads_conflict`).
+      `C09_handler_threads_isolated_partial` is the older form for arbitrary programs; its two
+      hypotheses together are equivalent to the footprint condition
+      (`C09_hypotheses_are_the_footprint_condition`), so it derives nothing about the handler.
+  The claim about the C++ code stays partial: that a call touches, besides the inventory, only
+  objects of its own thread (every object is either of static storage duration or reachable from
+  the thread's own handler / stack only) is an assumption about C++, supported (never replaced)
+  by the ThreadSanitizer runs of the check; the step granularity of `threadProg` is one access
+  set per call, not the C++ statements.
 -/
 namespace CelmaVerif.Props.C09
 
@@ -89,6 +102,30 @@ the reach makes this fail. -/
 theorem C09_inventory_clean : unjustifiedStatics = [] ∧ unjustifiedExternals = [] := by
   decide
 
+/-- What the justification of the `Singleton<Groups>` entries rests on for the threads that DO
+reach them.  A plain handler whose own command line contains `-h` / `--help` /
+`--list-arg-groups` calls `Handler::usage()`, which starts with
+`Groups::instance().evaluatedByArgGroups()` (`Api.usage`, `C09_plain_is_the_boundary`): such a
+thread is inside the property's quantifier and touches the process-wide singleton.  It is
+harmless only if `Singleton<T>::instance()` is a correct double-checked lock.  This theorem makes
+that an obligation of C09: for the configuration regenerated from `singleton.hpp` of the tree
+under check (translator `singleton_facts` = the C20 translator; a body it does not recognise
+breaks the tie of C09 as well), any number of threads and every schedule — the object is
+constructed at most once, every reference handed out is that one object (no thread is handed
+an object another thread replaces), no two enabled conflicting accesses to a non-atomic cell
+exist, and the construction happens-before every use of the object (mutex or release/acquire
+edge; `Concurrency.hbStep`).  What is *not* modelled: that the `Groups` object is only read on
+this path (`evaluatedByArgGroups()` reads a flag nobody writes outside `Groups::evalArguments`);
+the harness' `help` workloads run it under both sanitizers with the first use forced. -/
+theorem C09_singleton_entry_sound (n : Nat) (sched : List Nat) :
+    (Concurrency.srun Concurrency.Cfg.current n sched).built ≤ 1 ∧
+    (∀ t k, (Concurrency.srun Concurrency.Cfg.current n sched).ret t = some k → k = 0) ∧
+    ¬ Concurrency.SRacy Concurrency.Cfg.current n (Concurrency.srun Concurrency.Cfg.current n sched) ∧
+    (Concurrency.hrun Concurrency.Cfg.current n sched).2.racyUse = [] :=
+  ⟨(Concurrency.sinv_run _ n sched).built_le_one, (Concurrency.sinv_run _ n sched).ret,
+   Concurrency.sracy_of_inv_atomic _ n _ (Concurrency.sinv_run _ n sched) (by decide),
+   (Concurrency.hinv_run _ ⟨by decide, by decide, by decide⟩ n sched).clean⟩
+
 /-- Every inventory entry carries a justification constant (the form used by the isolation
 theorem). -/
 theorem C09_inventory_all_justified :
@@ -96,14 +133,82 @@ theorem C09_inventory_all_justified :
     (∀ x ∈ externalStatics, (justifyExternal x).isSome = true) := by
   decide
 
-/-- Isolation of handler threads.  Assumptions, all explicit: (closed world) a step of thread
-`i` reaches only objects of its own thread or objects with static storage duration, of which
-the mutable ones are the inventory; (justifications) for each justification constant, what it
-asserts about the threads in the quantifier — e.g. they do not go through
-`Singleton<Groups>`.  Conclusion: for every schedule that runs all threads to completion every
-thread has observed what it observes alone and its destination variables hold what they hold
-after the run alone; and no schedule at all contains a conflicting pair of accesses. -/
-theorem C09_handler_threads_isolated (n : Nat) (progs : Fin n → Prog HCell HVal)
+/-- The regenerated call-site table of the tree under check (every function of the handler's
+reach that calls a member function of `common::Singleton<T>`, the only code that can name the
+singleton's private static members; with the fact whether all such calls sit in a branch of an
+`if`) contains only callers the thread model knows, with the same guardedness.  A new call site
+— e.g. `Groups::instance()` in `Handler::evalArguments` — or a dropped `if (mUsedByGroup)` makes
+this fail. -/
+theorem C09_singleton_callers_modelled : callersModelled = true := by
+  decide
+
+/-- **Isolation of plain handler threads, footprint condition proved, not assumed.**  Every
+thread is given by the list of calls it makes on its own handler (`Api`: construct with/without
+`hfInGroup`, bound to the standard streams or not; add a list argument; add a bracket handler;
+evaluate a use; usage; list of groups; standard arguments; argument string without handler);
+its program `threadProg` is derived from that list, the process-wide cells being the regenerated
+inventory.  If every thread is plain — no `hfInGroup`, none of the four calls that enter the group
+singleton unconditionally (`Plain`, decidable) — then for every schedule that runs all threads to
+completion every thread has observed what it observes alone and its destination variables hold
+what they hold after the run alone, and no schedule at all contains a conflicting pair of
+accesses. -/
+theorem C09_plain_handler_threads_isolated (threads : List (List Api))
+    (hplain : ∀ th ∈ threads, Plain th = true)
+    (σ0 : Store HCell HVal) (sched : List (Fin threads.length)) :
+    let progs : Fin threads.length → Prog HCell HVal := fun i => threadProg i.val (threads[i])
+    (((Cfg.init progs σ0).run sched).Complete →
+      ∀ i, ((Cfg.init progs σ0).run sched).obs i = ((progs i).alone σ0 []).2 ∧
+        ∀ k, ((Cfg.init progs σ0).run sched).store (.dest i.val k) = ((progs i).alone σ0 []).1 (.dest i.val k)) ∧
+    (∀ a ∈ ((Cfg.init progs σ0).run sched).trace, ∀ b ∈ ((Cfg.init progs σ0).run sched).trace,
+      ¬ a.Conflict b) := by
+  intro progs
+  have hl : ∀ i, (progs i).Local (handlerOwner threads.length) i :=
+    fun i => threadProg_local i (threads[i]) (hplain _ (List.getElem_mem _))
+  refine ⟨fun hdone i => ?_, C09_race_free _ (handlerOwner _) progs σ0 sched hl⟩
+  have h := C09_noninterference _ (handlerOwner _) progs σ0 sched hl hdone i
+  exact ⟨h.1, fun k => h.2 _ (Or.inl (handlerOwner_dest i k))⟩
+
+/-- `Plain` is the exact boundary inside the family of derived thread programs, not a
+restatement of the footprint condition: a thread with one call that enters the group singleton
+whatever the handler's flags (`usage`, `listArgGroups`, `addStandardArgument`,
+`evalArgumentString`) has every singleton member of the inventory in its write footprint and does
+NOT satisfy the footprint condition; plain threads do (previous theorem). -/
+theorem C09_plain_is_the_boundary {n : Nat} (i : Fin n) (calls : List Api) :
+    (Plain calls = true → (threadProg i.val calls).Local (handlerOwner n) i) ∧
+    (∀ a ∈ calls, a.touchesSingleton false = true → ¬ (threadProg i.val calls).Local (handlerOwner n) i) :=
+  ⟨threadProg_local i calls, fun a ha hu => threadProg_not_local i calls a ha hu (by decide)⟩
+
+/-- … and the conclusion fails with it: two threads that each construct a plain handler and ask
+for the usage both write the members of `Singleton<Groups>` (first use constructs the object);
+the trace of the schedule `[0, 0, 0, 1, 1, 1]` contains a conflicting pair on the first inventory
+cell.  (Whether that conflict is a data race in C++ is property C20: the singleton synchronises
+it.  For C09 these threads are outside the quantifier.) -/
+theorem C09_usage_threads_conflict :
+    let progs : Fin 2 → Prog HCell HVal := fun i => threadProg i.val [.construct false true, .usage]
+    ∃ a ∈ ((Cfg.init progs (fun _ => [])).run [0, 0, 0, 1, 1, 1]).trace,
+    ∃ b ∈ ((Cfg.init progs (fun _ => [])).run [0, 0, 0, 1, 1, 1]).trace, a.Conflict b := by
+  intro progs
+  refine ⟨⟨0, .static 0, true⟩, by decide, ⟨1, .static 0, true⟩, by decide, ?_⟩
+  exact ⟨by decide, rfl, Or.inl rfl⟩
+
+/-- What the two hypotheses of the next theorem amount to (audit 2026-09-30): with the inventory
+of the tree under check, "closed world" and "every justification's assumption holds" together
+are EQUIVALENT to the footprint condition, for arbitrary programs. -/
+theorem C09_hypotheses_are_the_footprint_condition {n : Nat} (progs : Fin n → Prog HCell HVal) :
+    ((∀ i, ClosedWorld i (progs i)) ∧ ∀ j : Justification, j.Holds progs) ↔
+    ∀ i, (progs i).Local (handlerOwner n) i :=
+  hyps_iff_local progs C09_inventory_all_justified.1 C09_inventory_all_justified.2
+
+/-- PARTIAL (renamed from `C09_handler_threads_isolated`): isolation for *arbitrary* programs
+over the handler cells under two hypotheses — (closed world) a step of thread `i` reaches only
+objects of its own thread or inventory objects; (justifications) no thread touches an inventory
+entry carrying a justification.  By `C09_hypotheses_are_the_footprint_condition` these
+hypotheses are the footprint condition itself split along the inventory, and `progs` is not
+derived from the handler: the theorem only says that the *inventory* leaves nothing else to
+assume (a new unjustified entry makes it unprovable).  The derivation for the handler's calls is
+`C09_plain_handler_threads_isolated`.  Full statement that is missing: the footprint of the
+C++ functions themselves, statement by statement. -/
+theorem C09_handler_threads_isolated_partial (n : Nat) (progs : Fin n → Prog HCell HVal)
     (σ0 : Store HCell HVal) (sched : List (Fin n))
     (hworld : ∀ i, ClosedWorld i (progs i))
     (hjust : ∀ j : Justification, j.Holds progs) :
@@ -117,11 +222,13 @@ theorem C09_handler_threads_isolated (n : Nat) (progs : Fin n → Prog HCell HVa
   have h := C09_noninterference n (handlerOwner n) progs σ0 sched hl hdone i
   exact ⟨h.1, fun k => h.2 _ (Or.inl (handlerOwner_dest i k))⟩
 
-/-- The thread programs of the check's workloads (list-valued arguments with per-argument
-separators, tokenised as `TypedArg<ContainerAdapter<T>>::assign` does after the `fix:` commit):
-for every list of jobs and every complete schedule, every destination of every thread ends up
-with the contents of the run alone — the line the model driver prints. -/
-theorem C09_jobs_noninterference (jobs : List Job) (sched : List (Fin jobs.length))
+/-- PARTIAL (renamed from `C09_jobs_noninterference`): the thread programs the model driver
+runs — only list-valued arguments with per-argument separators, one atomic step per use
+(`TypedArg<ContainerAdapter<T>>::assign` after the `fix:` commit): for every list of jobs and
+every complete schedule, every destination of every thread ends up with the contents of the run
+alone — the line the model driver prints.  Missing: construction, checks, constraints, formats,
+cardinalities of the workloads in the quantifier (the harness runs them, the model does not). -/
+theorem C09_jobs_noninterference_partial (jobs : List Job) (sched : List (Fin jobs.length))
     (hdone : ((Cfg.init (fun i : Fin jobs.length => (jobs[i]).prog true i.val) (initStore jobs)).run sched).Complete) :
     ∀ (i : Fin jobs.length) (k : Nat),
       ((Cfg.init (fun i : Fin jobs.length => (jobs[i]).prog true i.val) (initStore jobs)).run sched).store (.dest i.val k)
@@ -175,61 +282,44 @@ example : ((Cfg.init fixedProgs (initStore defectJobs)).run [1, 0]).Complete := 
   | 0 => exact done_of_isDone _ (by decide)
   | 1 => exact done_of_isDone _ (by decide)
 
-/-- the hypotheses of `C09_handler_threads_isolated` are satisfiable: the repaired programs
-live in the closed world and touch no inventory cell at all -/
-example : (∀ i, ClosedWorld i (fixedProgs i)) ∧ ∀ j : Justification, j.Holds fixedProgs := by
-  have hfp : ∀ (i : Fin 2) c w, (fixedProgs i).Footprint c w → handlerOwner 2 c = .thread i := by
-    intro i c w hf
-    have h := footprint_of_local (handlerOwner 2) i _ (jobProg_local i (defectJobs[i])) c w hf
-    cases w with
-    | true => exact h.1 rfl
-    | false =>
-      cases h.2 rfl with
-      | inl h => exact h
-      | inr h =>
-        exfalso
-        cases c <;> simp [handlerOwner] at h <;> split at h <;> cases h
-  constructor
-  · intro i c w hf
-    have ho := hfp i c w hf
-    cases c with
-    | dest t k =>
-      left; refine ⟨k, ?_⟩
-      simp only [handlerOwner] at ho
-      split at ho
-      · have ht : t = i.val := congrArg Fin.val (Owner.thread.inj ho)
-        rw [ht]
-      · cases ho
-    | sepv t k =>
-      right; left; refine ⟨k, ?_⟩
-      simp only [handlerOwner] at ho
-      split at ho
-      · have ht : t = i.val := congrArg Fin.val (Owner.thread.inj ho)
-        rw [ht]
-      · cases ho
-    | tmp t =>
-      right; right; left
-      simp only [handlerOwner] at ho
-      split at ho
-      · have ht : t = i.val := congrArg Fin.val (Owner.thread.inj ho)
-        rw [ht]
-      · cases ho
-    | argv t j =>
-      right; right; right; left; refine ⟨j, ?_⟩
-      simp only [handlerOwner] at ho
-      split at ho
-      · have ht : t = i.val := congrArg Fin.val (Owner.thread.inj ho)
-        rw [ht]
-      · cases ho
-    | static e => simp [handlerOwner] at ho
-    | ext x => simp [handlerOwner] at ho
-  · intro j
-    constructor
-    · intro i e _ _ w hf
-      have ho := hfp i _ w hf
-      simp [handlerOwner] at ho
-    · intro i x _ _ w hf
-      have ho := hfp i _ w hf
-      simp [handlerOwner] at ho
+/-- the hypotheses of `C09_handler_threads_isolated_partial` are satisfiable: the repaired
+programs live in the closed world and touch no inventory cell at all -/
+example : (∀ i, ClosedWorld i (fixedProgs i)) ∧ ∀ j : Justification, j.Holds fixedProgs :=
+  closedWorld_of_local fixedProgs (fun i => jobProg_local i (defectJobs[i]))
+
+/-- two plain handler threads of the kind the harness runs (even thread bound to
+`std::cout/cerr`, odd thread with own streams; list arguments with separators `;` and `,`,
+a bracket handler, uses of both arguments) -/
+def plainThreads : List (List Api) :=
+  [ [.construct false true, .addListArg 0, .addListArg 1, .evalUse 0 0, .evalUse 1 1],
+    [.construct false false, .addListArg 0, .addBracketHandler, .evalUse 0 0] ]
+
+/-- the hypothesis of `C09_plain_handler_threads_isolated` holds for them, a schedule that
+interleaves them runs both to completion, and the conclusion is the expected split of each
+thread's own value at its own separator -/
+example : (∀ th ∈ plainThreads, Plain th = true) := by decide
+
+example :
+    let progs : Fin 2 → Prog HCell HVal := fun i => threadProg i.val (plainThreads[i])
+    let σ0 := initStore [⟨[';', ','], [(0, "a,b;c".toList), (1, "x,y".toList)]⟩, ⟨[','], [(0, "a,b;c".toList)]⟩]
+    let sched : List (Fin 2) := [0, 1, 0, 1, 0, 1, 0, 1, 0, 1, 0, 0, 0, 0, 0, 0]
+    (∀ i, ((Cfg.init progs σ0).run sched).rem i = .done) ∧
+    ((Cfg.init progs σ0).run sched).store (.dest 0 0) = ["a,b".toList, "c".toList] ∧
+    ((Cfg.init progs σ0).run sched).store (.dest 0 1) = ["x".toList, "y".toList] ∧
+    ((Cfg.init progs σ0).run sched).store (.dest 1 0) = ["a".toList, "b;c".toList] := by
+  intro progs σ0 sched
+  refine ⟨fun i => ?_, by decide, by decide, by decide⟩
+  match i with
+  | 0 => exact done_of_isDone _ (by decide)
+  | 1 => exact done_of_isDone _ (by decide)
+
+/-- a thread that is not plain: the usage is requested -/
+example : Plain [.construct false true, .addListArg 0, .usage] = false := by decide
+
+/-- a handler of a group (`hfInGroup`) is not plain either, and its `addArgument` reaches the
+singleton (`if (mUsedByGroup) Groups::instance().crossCheckArguments( this)`) -/
+example : Plain [.construct true true, .addListArg 0] = false ∧
+    (Api.addListArg 0).touchesSingleton true = true ∧ (Api.addListArg 0).touchesSingleton false = false := by
+  decide
 
 end CelmaVerif.Props.C09
